@@ -15,6 +15,8 @@
 #define protected public
 #include <primesieve/Erat.hpp>
 #include <primesieve/MemoryPool.hpp>
+#include <primesieve/config.hpp>
+#include <primesieve/Bucket.hpp>
 #include <primesieve/IteratorHelper.hpp>
 #include <primesieve/PrimeGenerator.hpp>
 #include <primesieve/iterator.hpp>
@@ -194,6 +196,24 @@ int main()
         else if (c == 'r') v.reserve(n); else if (c == 'z') v.resize(n);
         else v.insert(v.end(), src, src + n);
         out += (i > 1 ? " " : "") + std::to_string(v.size()) + "," + std::to_string(v.capacity());
+      }
+      std::cout << out << std::endl;
+    } else if (t.size() >= 1 && t[0] == "POOL") {
+      // MemoryPool bookkeeping: ops a (addBucket to a fresh list) | f (freeBucket of the bucket held longest);
+      // first token printed: MAX_ALLOC_BYTES / sizeof(Bucket); then per operation
+      // "<a0|a1|f>:nalloc,count_,stock length" (a1 = this addBucket allocated and std::align wasted a bucket)
+      MemoryPool pool; std::vector<Bucket*> held; std::size_t next = 0;
+      std::string out = std::to_string(config::MAX_ALLOC_BYTES / sizeof(Bucket));
+      for (std::size_t i = 1; i < t.size(); i++) {
+        std::string tag = t[i];
+        if (t[i][0] == 'a') {
+          std::size_t before = pool.memory_.size();
+          SievingPrime* sp = nullptr; pool.addBucket(sp); held.push_back(Bucket::get(sp + 1));
+          bool waste = pool.memory_.size() != before && pool.memory_.back().size() / sizeof(Bucket) != pool.count_;
+          tag = waste ? "a1" : "a0";
+        } else if (next < held.size()) pool.freeBucket(held[next++]);
+        std::size_t stock = 0; for (Bucket* b = pool.stock_; b; b = b->next()) stock++;
+        out += " " + tag + ":" + std::to_string(pool.memory_.size()) + "," + std::to_string(pool.count_) + "," + std::to_string(stock);
       }
       std::cout << out << std::endl;
     } else std::cout << "?" << std::endl;
